@@ -24,7 +24,10 @@ Proof.
 Qed.
 
 Lemma ctrans_kind i t s r : s_kind (ctrans i t s r) = s_kind s.
-Proof. unfold ctrans. destruct (s_kind s) eqn:E; cbn; auto. destruct (Qle_bool _ _); cbn; auto. Qed.
+Proof.
+  unfold ctrans, adopt. destruct (s_kind s) eqn:E; cbn; auto.
+  all: match goal with |- context [if ?b then _ else _] => destruct b end; cbn; auto.
+Qed.
 
 Lemma creinit_kind f i t s : s_kind (creinit f i t s) = s_kind s.
 Proof. unfold creinit. destruct (s_kind s) eqn:E; cbn; auto; destruct f; cbn; auto. Qed.
